@@ -100,6 +100,13 @@ def c_order_dependent(it):
     e["sel"] = "struct"
 
 
+def c_more_general_wins(it):
+    # every order reports ranks under which the bare variable is the unique minimum (self-consistent with the outcome rule)
+    for e in [x for x in it["ev"] if x["e"] == "res"]:
+        e["rk"] = [["any", 1], ["gen", 101]]
+        e.update({"kind": "ok", "sel": "any", "bind": [["~T", P("TS<int>")]], "out": P("TS<int>")})
+
+
 def c_unexpected_error(it):
     e = ev_res(it)
     e.update({"kind": "other", "sel": "", "bind": [], "out": cr.SIG})
@@ -129,6 +136,8 @@ CORRUPTIONS = [
     ("winner replaced by a resolution error", "spec", c_ok_to_nomatch, "C19.resolution_error_although_a_candidate_matches"),
     ("winner replaced by an ambiguity error", "spec", c_ok_to_ambiguous, "C19.ambiguity_reported_although_the_most_specific_match_is_unique"),
     ("second registration order picks another winner", "spec", c_order_dependent, "C19.outcome_depends_on_registration_order"),
+    ("bare variable out-ranks TS<$S> (ranks self-consistent)", "gen", c_more_general_wins,
+     "C19.selected_candidate_is_strictly_more_general_than_another_matching_candidate"),
     ("resolution raises another exception", "two", c_unexpected_error, "C19.resolution_raised_an_unexpected_error"),
     ("scenario did not complete (end dropped)", "two", c_drop_end, "trace.incomplete"),
 ]
@@ -165,13 +174,13 @@ def main():
         expect[100 + j] = ("%s  [%s]" % (what, n), clause)
     verdicts, _, _ = tracecheck.validate("ResolutionTrace", "ResolutionTrace.cfg", items, "c19self", shards=1, keep=cr.KEEP)
     ok = True
-    print("%-72s %-70s %s" % ("trace", "verdict of ResolutionTrace.tla", ""))
+    print("%-72s %-84s %s" % ("trace", "verdict of ResolutionTrace.tla", ""))
     for k in sorted(expect):
         what, want = expect[k]
         got = verdicts[k][1]
         good = got == want
         ok = ok and good
-        print("%-72s %-70s %s" % (what, got or "accepted", "ok" if good else "UNEXPECTED (wanted %s)" % (want or "accepted")))
+        print("%-72s %-84s %s" % (what, got or "accepted", "ok" if good else "UNEXPECTED (wanted %s)" % (want or "accepted")))
     print("c19_corrupt: %s" % ("every corruption rejected with the expected clause" if ok else "BINDING NOT DEMONSTRATED"))
     return 0 if ok else 1
 
